@@ -1377,6 +1377,7 @@ def run_plan(prop, plan):
             sub = {"cfg": plan["cfg"], "ops": [o for o in plan["sessions"][0]["ops"] if not o.get("invalid")],
                    "restart_off": plan.get("restart_off", 0.0), "restart_nops": plan.get("restart_nops", 1)}
             seams.uninstall()
+            crashsim._tree_parent[0] = None
             crashsim._restart_run("C06", sub, r4, plan["restart_at"])
             seams.install(tree, plan.get("readdir_seed", 1))
             for v_ in r4.violations:
